@@ -501,3 +501,34 @@ Proof.
   specialize (IH st1 _ H1 H2). destruct (run pinned w clients st1 l) as [st2 reps]. cbn [fst] in *.
   exact IH.
 Qed.
+
+(* ---------- the boolean equalities are equalities ------------------------------ *)
+
+Lemma msg_eqb_eq a b : msg_eqb a b = true <-> a = b.
+Proof.
+  destruct a as [s i b0 d], b as [s' i' b' d']. unfold msg_eqb. simpl.
+  rewrite !andb_true_iff, !String.eqb_eq, Z.eqb_eq, Bool.eqb_true_iff.
+  split; [intros [[[-> ->] ->] ->]; reflexivity|intros [= -> -> -> ->]; auto].
+Qed.
+
+Lemma write_eqb_eq a b : write_eqb a b = true <-> a = b.
+Proof.
+  destruct a, b; simpl; try (split; discriminate).
+  - rewrite String.eqb_eq. split; [now intros ->|now intros [= ->]].
+  - rewrite Z.eqb_eq. split; [now intros ->|now intros [= ->]].
+  - rewrite Bool.eqb_true_iff. split; [now intros ->|now intros [= ->]].
+  - rewrite String.eqb_eq. split; [now intros ->|now intros [= ->]].
+Qed.
+
+Lemma errc_eqb_eq a b : errc_eqb a b = true <-> a = b.
+Proof. destruct a, b; simpl; split; intro H; try reflexivity; discriminate. Qed.
+
+Lemma reply_eqb_eq a b : reply_eqb a b = true <-> a = b.
+Proof.
+  destruct a as [t m|c t], b as [t' m'|c' t']; simpl; try (split; discriminate).
+  - rewrite andb_true_iff, Nat.eqb_eq, msg_eqb_eq. split; [now intros [-> ->]|now intros [= -> ->]].
+  - rewrite andb_true_iff, errc_eqb_eq, String.eqb_eq. split; [now intros [-> ->]|now intros [= -> ->]].
+Qed.
+
+Lemma reply_eqb_refl a : reply_eqb a a = true.
+Proof. now apply reply_eqb_eq. Qed.
